@@ -100,14 +100,15 @@ Theorem C01_safety_checked_partial : forall txt p p' md,
 Proof. exact safety_checked_partial. Qed.
 
 Example C01_static_check_examples :
-  static_check_text example_text = SV_typed /\ static_check_text example_drop_text = SV_typed.
+  static_check_text example_text = SV_typed /\ static_check_text example_drop_text = SV_typed /\
+  static_check_text example_split_text = SV_typed.
 Proof. exact static_check_examples. Qed.
 
 (* non-vacuity: a concrete accepted program of the fragment (cut, call, ⊗, ⊸, 1, print) runs to
    quiescence without error, prints both labels and leaves no process — first-enabled and
    last-enabled schedules *)
-Example C01_example_in_fragment : example_in_fragment /\ example_drop_in_fragment.
-Proof. split; vm_compute; repeat (split || constructor || eexists). Qed.
+Example C01_example_in_fragment : example_in_fragment /\ example_drop_in_fragment /\ example_split_in_fragment.
+Proof. split; [|split]; vm_compute; reflexivity. Qed.
 
 Example C01_example_runs :
   run_example Async (fun _ _ => 0%nat) = Some (0%nat, ["served"; "done"], true) /\
@@ -117,7 +118,11 @@ Example C01_example_runs :
   (* drop: the dropped provider and the process it alone depended on are reclaimed *)
   run_example_drop Async (fun _ _ => 0%nat) = Some (0%nat, ["dropped"], true) /\
   run_example_drop Async (fun _ n => pred n) = Some (0%nat, ["dropped"], true) /\
-  run_example_drop Sync (fun _ _ => 0%nat) = Some (1%nat, ["dropped"], true).
+  run_example_drop Sync (fun _ _ => 0%nat) = Some (1%nat, ["dropped"], true) /\
+  (* split: a forward with two providers, DUP *)
+  run_example_split Async (fun _ _ => 0%nat) = Some (0%nat, ["made"; "done"], true) /\
+  run_example_split Async (fun _ n => pred n) = Some (0%nat, ["made"; "done"], true) /\
+  run_example_split Sync (fun _ _ => 0%nat) = Some (1%nat, ["made"; "done"], true).
 Proof. repeat split; vm_compute; reflexivity. Qed.
 
 Print Assumptions C01_step_error_inv.
